@@ -67,9 +67,9 @@ H("h_numbers::c01_exp_u4", ["C01", "C04"], "numbers::exp (+ from_utf8_unchecked)
 H("h_numbers::c01_float_syntax_a4", ["C01", "C04"], "numbers::float_ (dec_int, exp, frac; + from_utf8_unchecked)", A % 4, measured_s=280, tier="thorough", rss_gb=24)
 for b, n in (("hex", "0x"), ("oct", "0o"), ("bin", "0b")):
     H(f"h_numbers::c02_integer_{b}_a5", ["C02", "C01", "C11", "C04"], f"numbers::integer ({b} arm: dispatch, {b}_int, replace, from_str_radix)",
-      f"`{n}` + every ASCII string of <= 3 bytes (symbolic length)", tier="thorough", measured_s=300, models=("M1", "M2", "M7"), rss_gb=24)
+      f"`{n}` + every ASCII string of <= 3 bytes (symbolic length)", tier="thorough", measured_s=700, models=("M1", "M2", "M7"), rss_gb=24)
 H("h_numbers::c02_integer_dec_a4", ["C02", "C01", "C11", "C04"], "numbers::integer (decimal arm: dispatch, dec_int, rest, replace, parse::<i64>)",
-  A % 4 + " not starting with 0x / 0o / 0b", tier="thorough", measured_s=355, models=("M1", "M2", "M7"), rss_gb=24)
+  A % 4 + " not starting with 0x / 0o / 0b", tier="thorough", measured_s=840, models=("M1", "M2", "M7"), rss_gb=24)
 H("h_numbers::c11_integer_hex_edge16", ["C11", "C02", "C01", "C04"], "numbers::integer (hex arm) with M2", "`0x` + 16 symbolic hex digits (every 64-bit pattern, both cases of A-F)", tier="thorough", measured_s=372, models=("M1", "M2", "M7"), mem_gb=40, rss_gb=24)
 H("h_numbers::c11_integer_oct_edge22", ["C11", "C02", "C01", "C04"], "numbers::integer (octal arm) with M2", "`0o` + 22 symbolic octal digits (66 bits)", tier="thorough", measured_s=478, models=("M1", "M2", "M7"), mem_gb=40, rss_gb=24)
 # deeper bounds of the same kernels (thorough tier)
